@@ -100,6 +100,11 @@ class C17(Prop):
                 h.insert(i, h[i])
         return h
 
+    def extract_tables(self, repo):
+        # the tag arithmetic (TagContext.change_tags, _merge_tags) is translated from the source on every run (tie 1)
+        from harness.pyset2lean import translate
+        return {'TTV/Generated/C17.lean': translate(repo)['TTV/Generated/C17.lean']}
+
     def gen(self, rng, tier):
         inner = ('etod', 'deco', 'tagger', 'tfr', 'tfr', 'multi', 'multi', 'e2s')
         leaves = ('old', 'ext', 'ext', 'tt', 'tt', 'tbt')
